@@ -365,13 +365,22 @@ func (e *Exec) streamRun(fr *Frame, st *BState, x *ssa.Call) SV {
 	for _, g := range []string{"IN", "INM", "OUT", "OUTM"} {
 		sl := st.ghost[g].(*SliceV)
 		n := e.fresh("stream."+g+".len", SInt)
-		e.assume(le(intLit(0), n))
+		// traces are append-only: what was recorded before this Run started stays (length and rows)
+		e.assume(and(le(intLit(0), n), le(sl.Len, n)))
 		st.ghost[g] = &SliceV{Ty: sl.Ty, Base: sl.Base, Off: sl.Off, Len: n, Cap: sl.Cap}
 		et := sl.Ty.Underlying().(*types.Slice).Elem()
+		oldLen := sl.Len
 		build(et, "", func(path, sort string, _ types.Type) *Term {
 			k := heapKey("A", et, path)
 			arr := e.heapArr(st, k, arrSort(SInt, arrSort(SInt, sort)))
-			st.heap[k] = sto(arr, sl.Base, e.fresh("stream."+g+path, arrSort(SInt, sort)))
+			na := e.fresh("stream."+g+path, arrSort(SInt, sort))
+			if oldLen != intLit(0) {
+				nbound++
+				j := mk(SInt, fmt.Sprintf("j!q%d", nbound))
+				oldInner := sel(arr, sl.Base, arrSort(SInt, sort))
+				e.assume(mk(SBool, "forall", mk("binder", "(("+j.Op+" Int))"), implies(and(le(intLit(0), j), lt(j, oldLen)), eq(sel(na, j, sort), sel(oldInner, j, sort)))))
+			}
+			st.heap[k] = sto(arr, sl.Base, na)
 			return nil
 		})
 	}
